@@ -23,6 +23,9 @@ def plan(tier, ctx):
     for (hlit, hdist, back, tail) in dl:
         qs.append(P.dynlens_query(hlit, hdist, back, tail, core=False, witness=(not quick and tail == 1 and hlit == 0), timeout=(600 if quick else 2400),
                                   mem_gb=12))
+    #     the pair cut out of (d): table builder + symbol decoder of the code-length code, concrete shapes
+    for i, lens in enumerate(P.MKHDR_SHAPES):
+        qs.append(P.mkhdr_query(i, lens, core=(i == 0), witness=(i == 0)))
     # (e) trailer consumption: exact end position with data following the trailer (1-2 s each)
     rils = [0, 3, 8, 31, 32, 35, 40, 61, 64] if quick else list(range(0, 65))
     avs = [0, 3, 6, 9] if quick else [0, 1, 2, 3, 4, 5, 7, 8, 9, 11]
